@@ -305,6 +305,59 @@ func oracleC10(in map[string]any, main implStatic, variants []implStatic) ([]Vio
 			}
 		}
 	}
+	// mixture, cell by cell: in a row where some of the policy cells of stop_times.txt are blank and others are not,
+	// each blank cell takes its own default and each written cell its own value
+	if mt := truthOfKey(in, "mixedTruth", "stop_times.txt"); mt != nil && len(variants) >= 2 && variants[1].s != nil {
+		policy := func(cell string, dflt gtfs.PickupDropOffPolicy) (gtfs.PickupDropOffPolicy, bool) {
+			switch cell {
+			case "":
+				return dflt, true
+			case "0":
+				return gtfs.PickupDropOffPolicy_Yes, true
+			case "1":
+				return gtfs.PickupDropOffPolicy_No, true
+			case "2":
+				return gtfs.PickupDropOffPolicy_PhoneAgency, true
+			case "3":
+				return gtfs.PickupDropOffPolicy_CoordinateWithDriver, true
+			}
+			return 0, false
+		}
+		for _, t := range variants[1].s.Trips {
+			for _, st := range t.StopTimes {
+				var hit []string
+				n := 0
+				for _, row := range mt.rows {
+					if mt.get(row, "trip_id") == t.ID && digit(mt.get(row, "stop_sequence")) == st.StopSequence {
+						hit = row
+						n++
+					}
+				}
+				if n != 1 {
+					continue
+				}
+				cells := []string{mt.get(hit, "pickup_type"), mt.get(hit, "drop_off_type"), mt.get(hit, "continuous_pickup"), mt.get(hit, "continuous_drop_off")}
+				got := []gtfs.PickupDropOffPolicy{st.PickupType, st.DropOffType, st.ContinuousPickup, st.ContinuousDropOff}
+				dflt := []gtfs.PickupDropOffPolicy{gtfs.PickupDropOffPolicy_Yes, gtfs.PickupDropOffPolicy_Yes, gtfs.PickupDropOffPolicy_No, gtfs.PickupDropOffPolicy_No}
+				names := []string{"pickup_type", "drop_off_type", "continuous_pickup", "continuous_drop_off"}
+				nBlank := 0
+				for k := range cells {
+					if cells[k] == "" {
+						nBlank++
+					}
+					if want, ok := policy(cells[k], dflt[k]); ok && mt.col(names[k]) >= 0 && got[k] != want {
+						l.add("c10-cell", "trip %q seq %d: %s is written %q (blank = default), the result has %v", t.ID, st.StopSequence, names[k], cells[k], got[k])
+					}
+				}
+				if tp := mt.get(hit, "timepoint"); mt.col("timepoint") >= 0 && (tp == "" || tp == "0" || tp == "1") && st.ExactTimes != (tp != "0") {
+					l.add("c10-cell", "trip %q seq %d: timepoint is written %q (blank = exact), the result has exact=%v", t.ID, st.StopSequence, tp, st.ExactTimes)
+				}
+				if nBlank > 0 && nBlank < len(cells) {
+					tags["row-with-blank-and-written-policy-cells"] = true
+				}
+			}
+		}
+	}
 	// inheritance: the other option value changes nothing but unspecified wheelchair boarding of
 	// stops whose parent is a station
 	other, so, _ := parseStaticImpl(membersOf(in["members"]), !gb(in, "inherit"), gb(in, "deflate"))
